@@ -101,6 +101,12 @@ Grammars ==
     [] Slice = "tag" ->    \* grammar-extras: the expression sits under a node tag (#t = e), alone and as part of a sequence
          { [m |-> [ty |-> "", e |-> Tg(e)], r1 |-> [ty |-> "", e |-> x]] : e \in TagExprs, x \in {S(a), S(<<>>), Un("opt", Id("m"))} }
          \cup { [m |-> [ty |-> "", e |-> Bin("seq", S(a), Tg(e))], r1 |-> [ty |-> "", e |-> x]] : e \in TagExprs, x \in {S(a), S(<<>>)} }
+    [] Slice = "three" ->  \* a left-recursive cycle between r1 and r2 that does not pass through m, which reaches it in leftmost position
+         { [m |-> [ty |-> "", e |-> e], r1 |-> [ty |-> "", e |-> x], r2 |-> [ty |-> "", e |-> y], r3 |-> [ty |-> "", e |-> z]] :
+             e \in { Bin("seq", Id("r1"), S(a)), Bin("alt", S(a), Id("r2")), Un("opt", Id("r1")), S(a) },
+             x \in { Bin("alt", Bin("seq", Id("r2"), S(a)), S(a)), Id("r2"), Bin("seq", Un("opt", S(a)), Id("r2")) },
+             y \in { Bin("alt", Bin("seq", Id("r1"), S(a)), S(a)), Id("r1"), Bin("seq", S(a), Id("r1")) },
+             z \in { Id("r1"), Bin("seq", Id("r2"), Id("m")), S(a) } }
     [] Slice = "self" ->
          { [m |-> [ty |-> t, e |-> e], r1 |-> [ty |-> "", e |-> x]] : e \in SelfExprs, x \in AuxPool, t \in {"", "_"} }
     [] Slice = "rec" ->
@@ -112,6 +118,12 @@ Grammars ==
          \cup
          { [m |-> [ty |-> "", e |-> Bin("seq", S(a), S(a))], r1 |-> [ty |-> "", e |-> S(a)], COMMENT |-> [ty |-> "_", e |-> w]] :
              w \in WsPool }
+         \cup  \* both skip rules defined, one of them sound (in either order of definition: see the printer) and one from the pool
+         { [m |-> [ty |-> "", e |-> Bin("seq", S(a), S(a))], r1 |-> [ty |-> "", e |-> S(a)], WHITESPACE |-> [ty |-> "_", e |-> S(sp)],
+            COMMENT |-> [ty |-> "_", e |-> w]] : w \in WsPool }
+         \cup
+         { [m |-> [ty |-> "", e |-> Bin("seq", S(a), S(a))], r1 |-> [ty |-> "", e |-> S(a)], COMMENT |-> [ty |-> "_", e |-> S(<<35>>)],
+            WHITESPACE |-> [ty |-> "_", e |-> w]] : w \in WsPool }
 
 TCode == [str |-> 1, ins |-> 2, range |-> 3, id |-> 4, peek |-> 5, seq |-> 6, alt |-> 7, opt |-> 8, rep |-> 9,
           rep1 |-> 10, not |-> 11, and |-> 12, push |-> 13, exact |-> 14, min |-> 15, max |-> 16, minmax |-> 17,
